@@ -179,4 +179,21 @@ theorem fact_checkAndLog_uses_its_arguments :
     Facts.checkAndLogAssigned.all (fun a => !Facts.checkAndLogParams.contains a) = true := by
   decide
 
+/-! ### T1: functions the model transcribes, statement by statement (white space collapsed) -/
+
+def expected_DB_checkAndLog : List String := ["var errs []error", "authorized := caller.Permissions.Allow(action, secret)", "if !authorized { errs = append(errs, ErrAccessDenied) }", "err := db.auditLog.WriteEntries(&audit.Entry{ Principal: caller.Principal, Action: action, Secret: secret, SecretVersion: secretVersion, Authorized: authorized, })", "if err != nil { errs = append(errs, fmt.Errorf(\"writing audit log: %w\", err)) }", "return multierr.New(errs...)"]
+
+/-- checkAndLog: ask the ACL, write the entry (authorized or not), join the denial and a failed write into one error -/
+theorem fact_DB_checkAndLog_as_transcribed : Facts.body_DB_checkAndLog = expected_DB_checkAndLog := by rfl
+
+def expected_DB_Get : List String := ["if err := db.checkAndLog(caller, acl.ActionGet, name, 0); err != nil { return nil, err }", "db.mu.Lock()", "defer db.mu.Unlock()", "return db.kv.get(name)"]
+
+/-- DB.Get: check and record first, then - under the mutex - read -/
+theorem fact_DB_Get_as_transcribed : Facts.body_DB_Get = expected_DB_Get := by rfl
+
+def expected_DB_Put : List String := ["if name == \"\" { return 0, errors.New(\"empty secret name\") }", "if err := db.checkAndLog(caller, acl.ActionPut, name, 0); err != nil { return 0, err }", "db.mu.Lock()", "defer db.mu.Unlock()", "if strings.HasPrefix(name, configPrefix) { return db.putConfigLocked(name, value) }", "return db.kv.put(name, value)"]
+
+/-- DB.Put: refuse the empty name, check and record, then - under the mutex - the reserved prefix or the store's put -/
+theorem fact_DB_Put_as_transcribed : Facts.body_DB_Put = expected_DB_Put := by rfl
+
 end Setec.C01
